@@ -42,24 +42,24 @@ class Builder:
                 self.deadlines.append(self.t + e[5])
         self._adv()
 
-    def offer(self, p, key, ttl, ch="m", extra=None, opts=None, second=None):
+    def offer(self, p, key, ttl, ch="m", extra=None, opts=None, second=None, pre=None):
         e = ["offer", key[0], key[1], key[2], key[3], ttl]
         if opts:
             e.append(opts)
         if second:
-            self.sd(p, ch, [e] + (extra or []), e2=second)
+            self.sd(p, ch, (pre or []) + [e] + (extra or []), e2=second)
         else:
-            self.sd(p, ch, [e] + (extra or []))
+            self.sd(p, ch, (pre or []) + [e] + (extra or []))
 
     def find(self, p, ch="m", key=(0x7777, 0xFFFF, 0xFF, 0xFFFFFFFF)):
         self.sd(p, ch, [["find", key[0], key[1], key[2], key[3], 3]])
 
-    def sub(self, p, ids, eg, ttl, counter=0, ch="u", eps=None, extra=None, second=None):
+    def sub(self, p, ids, eg, ttl, counter=0, ch="u", eps=None, extra=None, second=None, pre=None):
         e = ["sub", ids[0], ids[1], ids[2], eg, ttl, counter, eps if eps is not None else [ep(p)]]
         if second:
-            self.sd(p, ch, [e] + (extra or []), e2=second)
+            self.sd(p, ch, (pre or []) + [e] + (extra or []), e2=second)
         else:
-            self.sd(p, ch, [e] + (extra or []))
+            self.sd(p, ch, (pre or []) + [e] + (extra or []))
 
     def preboot(self, p):
         self._now()
